@@ -6,6 +6,8 @@ import (
 	"flag"
 	"fmt"
 	"strings"
+	"sync/atomic"
+	"time"
 
 	"github.com/openfga/language/pkg/go/transformer"
 )
@@ -63,7 +65,26 @@ func mfKind(msg string) string {
 	return "other"
 }
 
-func runModFile(text string) (obs mfObs) {
+// runModFile runs TransformModFile with a deadline: a call that does not return within 10 s is reported as result "panic" with a
+// message that begins with "hang:" (its goroutine cannot be stopped; after two of them the rest of the run is not executed any more).
+var modfileHangs int32
+
+func runModFile(text string) mfObs {
+	if atomic.LoadInt32(&modfileHangs) >= 2 {
+		return mfObs{Result: "panic", Msg: "hang: not run (two earlier manifests did not return)", Items: []mfItem{}, Errors: []mfErr{}}
+	}
+	done := make(chan mfObs, 1)
+	go func() { done <- runModFileNow(text) }()
+	select {
+	case o := <-done:
+		return o
+	case <-time.After(10 * time.Second):
+		atomic.AddInt32(&modfileHangs, 1)
+		return mfObs{Result: "panic", Msg: "hang: TransformModFile did not return within 10 s", Items: []mfItem{}, Errors: []mfErr{}}
+	}
+}
+
+func runModFileNow(text string) (obs mfObs) {
 	obs.Items = []mfItem{}
 	obs.Errors = []mfErr{}
 	defer func() {
